@@ -13,7 +13,7 @@
   offset / selector arrays slot by slot.
 
   The defects of the current code are modelled as they are:
-    * enum columns: the load fails (`none`) (net columns in plain encoding did too until
+    * enum columns that are not const-encoded: the load fails (`none`) (net columns in plain encoding did too until
       /repo 496cea1e9; the model follows the regenerated allocation fact);
     * a union's tags are loaded WITHOUT expansion over null slots and `Union.Serialize`
       ignores the union's nulls;
@@ -110,7 +110,12 @@ def isNullTy : Ty → Bool
 /-- `loadPrimitive` for one leaf; `length` = values + nulls of the column and of the
     enclosing records. -/
 def loadLeaf (t : Ty) (p : PCol) (length : Nat) (nulls : Bitmap) : Option Vec :=
-  if isEnumTy t then none                                   -- no case in loadVals / loadDict / empty
+  if isEnumTy t then
+    -- no enum case in loadVals (error), loadDict (panic) and empty (panic); a Const column
+    -- (all values equal) goes through none of them and loads
+    match p with
+    | .const v _ => some (.const t v length nulls)
+    | _ => none
   else match p with
     | .const v _ => some (.const t v length nulls)
     | .dict es sel _ =>
